@@ -307,6 +307,51 @@ theorem wellTypedTD_mem (fds : List Field) : ∀ (kvs : List (Obj × Obj)), well
       | some f => rw [hf] at h; exact ⟨f, findField_mem hf, findField_key hf, h.1⟩
     · exact ih h.2 p e
 
+/-- an instance whose fields are well-typed is, read as a tuple, well-typed for the tuple of the field types -/
+theorem wellTypedF_T : ∀ (fds : List Field) (fs : List (String × Obj)), wellTypedF w fds fs = true →
+    wellTypedT w (fds.map Field.tyA) (vals fs) = true := by
+  intro fds
+  induction fds with
+  | nil => intro fs h; cases fs <;> simp_all [wellTypedF, wellTypedT, vals]
+  | cons f fds ih =>
+    intro fs h
+    cases fs with
+    | nil => simp [wellTypedF] at h
+    | cons p rest =>
+      obtain ⟨n, x⟩ := p
+      rw [wellTypedF_cons] at h
+      simp only [Bool.and_eq_true] at h
+      simp only [List.map_cons, vals, wellTypedT, Bool.and_eq_true]
+      refine ⟨?_, ih rest h.2⟩
+      have h1 := h.1
+      unfold wtField at h1; unfold Field.tyA
+      cases hty : f.ty with
+      | none => rw [hty] at h1; simp only []; rw [wellTyped]; exact h1
+      | some t => rw [hty] at h1; exact h1
+
+theorem sizeOf_lt_of_mem_vals {fs : List (String × Obj)} {y : Obj} (h : y ∈ vals fs) : sizeOf y < 1 + sizeOf fs := by
+  have h1 := List.sizeOf_lt_of_mem h
+  have h2 := sizeOf_vals_lt fs
+  omega
+
+theorem ntTys_supU {gen : Bool} (hws : w.SupU gen) (c : Nat) : ∀ t ∈ w.ntTys c, t.supU gen = true := by
+  intro t ht
+  simp only [World.ntTys, List.mem_map] at ht
+  obtain ⟨f, hf, rfl⟩ := ht
+  unfold Field.tyA
+  cases hty : f.ty with
+  | none => simp [Ty.supU]
+  | some t' => exact hws.fieldsOK c f hf t' hty
+
+theorem ntTys_primU {gen : Bool} (hws : w.SupU gen) (hg : gen = false) {c : Nat} (hnt : w.isNT c = true) :
+    (w.ntTys c).all Ty.isPrimLeaf = true := by
+  rw [List.all_eq_true]
+  intro t ht
+  simp only [World.ntTys, List.mem_map] at ht
+  obtain ⟨f, hf, rfl⟩ := ht
+  obtain ⟨t', hty, hp⟩ := hws.ntPrim hg c hnt f hf
+  simp only [Field.tyA, hty]; exact hp
+
 /-- a value of its declared type is also well-typed when only its run-time class is looked at -/
 theorem wellTyped_any_aux (gen : Bool) (hws : w.SupU gen) :
     ∀ (n m : Nat) (t : Ty) (x : Obj), sizeOf x ≤ n → sizeOf t ≤ m → t.supU gen = true → wellTyped w t x = true →
@@ -385,8 +430,10 @@ theorem wellTyped_any_aux (gen : Bool) (hws : w.SupU gen) :
         cases x with
         | inst c' fs =>
           simp only [wellTyped, Bool.and_eq_true, beq_iff_eq] at hwt
-          obtain ⟨rfl, h⟩ := hwt
-          rw [wellTypedAny]; exact h
+          obtain ⟨⟨rfl, _⟩, h⟩ := hwt
+          rw [wellTypedAny]; split
+          · exact wellTypedF_T w _ fs h
+          · exact h
         | _ => simp [wellTyped] at hwt
       | td c =>
         cases x with
@@ -409,13 +456,23 @@ theorem wellTyped_any_aux (gen : Bool) (hws : w.SupU gen) :
         | none => simp [wellTypedAny]
         | inst c fs =>
           simp only [wellTyped, Bool.and_eq_true] at hwt
-          rw [wellTypedAny]; exact hwt.2
+          rw [wellTypedAny]; split
+          · exact wellTypedF_T w _ fs hwt.2
+          · exact hwt.2
+        | _ => simp [wellTyped] at hwt
+      | nt c =>
+        cases x with
+        | inst c' fs =>
+          simp only [wellTyped, Bool.and_eq_true, beq_iff_eq] at hwt
+          obtain ⟨⟨rfl, hnt⟩, h⟩ := hwt
+          rw [wellTypedAny, if_pos hnt]; exact h
         | _ => simp [wellTyped] at hwt
 
 theorem wellTyped_any (gen : Bool) (hws : w.SupU gen) {t : Ty} {x : Obj} (hs : t.supU gen = true)
     (h : wellTyped w t x = true) : wellTypedAny w x = true :=
   wellTyped_any_aux w gen hws (sizeOf x) (sizeOf t) t x (Nat.le_refl _) (Nat.le_refl _) hs h
 
+set_option maxHeartbeats 400000 in
 /-- **C03 core.** -/
 theorem prim_aux (hws : w.SupU cfg.gen) :
     ∀ (n : Nat),
@@ -452,6 +509,19 @@ theorem prim_aux (hws : w.SupU cfg.gen) :
         exact ⟨by simp, unFieldsT_prim w cfg _ fs (hField c fs hfs) hwt⟩
       · simp only [Obj.prim]
         exact unFields_prim w cfg _ fs (hField c fs hfs) hwt
+    have hNT : ∀ (c : Nat) (fs : List (String × Obj)), sizeOf fs ≤ n → w.isNT c = true →
+        wellTypedT w (w.ntTys c) (vals fs) = true →
+        (Obj.coll .tuple (if cfg.gen then unT w cfg (w.ntTys c) (vals fs) else vals fs)).prim (!cfg.gen) = true := by
+      intro c fs hfs hnt hwt
+      simp only [Obj.prim, Bool.and_eq_true]
+      refine ⟨by simp, ?_⟩
+      split
+      · refine unT_prim w cfg _ _ (fun t' ht' z hz hh => ?_) hwt
+        have := sizeOf_lt_of_mem_vals hz
+        exact ihU (sizeOf t') t' z (by omega) (Nat.le_refl _) (ntTys_supU w hws c t' ht') hh
+      · rename_i hg
+        exact primL_iff.mpr (fun z hz => leaf_prim
+          (wellTypedT_leaves w _ _ (ntTys_primU w hws (by simpa using hg) hnt) hwt z hz))
     have hAny : ∀ (x : Obj), sizeOf x ≤ n + 1 → wellTypedAny w x = true → (unAny w cfg x).prim (!cfg.gen) = true := by
       intro x hx hwt
       cases x with
@@ -479,7 +549,11 @@ theorem prim_aux (hws : w.SupU cfg.gen) :
         rw [wellTypedAny] at hwt
         rw [unAny]
         simp at hx
-        exact hInst c fs (by omega) hwt
+        by_cases hnt : w.isNT c = true
+        · rw [if_pos hnt] at hwt ⊢
+          exact hNT c fs (by omega) hnt hwt
+        · rw [if_neg hnt] at hwt ⊢
+          exact hInst c fs (by omega) hwt
       | _ => simp [unAny, Obj.prim]
     refine ⟨hAny, ?_⟩
     intro m
@@ -629,7 +703,18 @@ theorem prim_aux (hws : w.SupU cfg.gen) :
         | none => simp [wellTypedAny]
         | inst c fs =>
           simp only [wellTyped, Bool.and_eq_true] at hwt
-          rw [wellTypedAny]; exact hwt.2
+          rw [wellTypedAny]; split
+          · exact wellTypedF_T w _ fs hwt.2
+          · exact hwt.2
+        | _ => simp [wellTyped] at hwt
+      | nt c =>
+        cases x with
+        | inst c' fs =>
+          simp only [wellTyped, Bool.and_eq_true, beq_iff_eq] at hwt
+          obtain ⟨⟨rfl, hnt⟩, h⟩ := hwt
+          simp at hx
+          rw [un]
+          exact hNT c fs (by omega) hnt h
         | _ => simp [wellTyped] at hwt
 
 theorem un_prim (hws : w.SupU cfg.gen) {t : Ty} {x : Obj} (hs : t.supU cfg.gen = true) (h : wellTyped w t x = true) :
